@@ -11,6 +11,14 @@
 //! (`vharness child c12`, batches of cases, every case under `catch_unwind`), so that a stack
 //! overflow or abort is an observation: the batch is resumed after the case that killed it.
 //!
+//! Scale families (`scale`): texts the fault enumeration never reaches because they are big, generated from
+//! a few parameters (the replay names the generator and its parameters) — *deep-nesting*: boxed contexts,
+//! boxed function definitions and item components nested thousands of levels deep, chains of thousands of
+//! decisions each requiring the next (the answer must be a model, an error or a value, not the death of the
+//! process); *diamond*: layers of two decisions / knowledge models / item definitions that both refer to both
+//! elements of the next layer, at most 64 elements (the answer must come within an explicit wall-clock
+//! budget, `DIAMOND_BUDGET_MS`, for loading and for evaluating an invocable: "never … a hang").
+//!
 //! Model part: `Dmn.MB` (decision-table builder index pairing, fuel-bounded traversals) through
 //! the driver, compared with the implementation on generated table shapes and requirement graphs.
 //!
@@ -509,10 +517,14 @@ pub fn child(args: &[String], input: &str) -> i32 {
     let only: Option<String> = j["only"].as_str().map(|s| s.to_string());
     let _ = writeln!(out, "start\t{}", id);
     let _ = out.flush();
+    let t0 = std::time::Instant::now();
     let r = run_one(&text, only.as_deref(), &mut |stage: &str| {
+      // `time` lines: milliseconds since the start of the case at which a stage begins (read by the scale families)
+      let _ = writeln!(out, "time\t{}\t{}\t{}", id, t0.elapsed().as_millis(), stage);
       let _ = writeln!(out, "stage\t{}\t{}", id, stage);
       let _ = out.flush();
     });
+    let _ = writeln!(out, "time\t{}\t{}\tend", id, t0.elapsed().as_millis());
     let _ = writeln!(out, "done\t{}\t{}", id, r);
     let _ = out.flush();
   }
@@ -537,6 +549,12 @@ pub fn run_cases(base: &str, cases: &[(usize, Vec<(usize, usize, String)>)], out
 
 /// As `run_cases`; `only[k]` (when given) restricts case `k` to one invocable name (`-`: none).
 pub fn run_cases_only(base: &str, cases: &[(usize, Vec<(usize, usize, String)>)], only: &[String], out: &mut Vec<(usize, Obs)>) {
+  run_cases_timed(base, cases, only, None, out, &mut vec![])
+}
+
+/// As `run_cases_only` with an explicit wall-clock limit per child (milliseconds); `times` receives the
+/// `time` lines of the children: (case, milliseconds since the start of the case, stage that begins).
+pub fn run_cases_timed(base: &str, cases: &[(usize, Vec<(usize, usize, String)>)], only: &[String], limit_ms: Option<u64>, out: &mut Vec<(usize, Obs)>, times: &mut Vec<(usize, u64, String)>) {
   const BATCH: usize = 400;
   let mut queue: Vec<Vec<(usize, Vec<(usize, usize, String)>)>> = cases.chunks(BATCH).map(|c| c.to_vec()).collect();
   queue.reverse();
@@ -555,7 +573,7 @@ pub fn run_cases_only(base: &str, cases: &[(usize, Vec<(usize, usize, String)>)]
       }
       stdin.push('\n');
     }
-    let timeout = 20_000 + 150 * batch.len() as u64;
+    let timeout = limit_ms.unwrap_or(20_000 + 150 * batch.len() as u64);
     let pfile = progress_file();
     let (desc, _) = util::child(&["c12", &pfile], &stdin, timeout);
     let progress = std::fs::read_to_string(&pfile).unwrap_or_default();
@@ -566,6 +584,11 @@ pub fn run_cases_only(base: &str, cases: &[(usize, Vec<(usize, usize, String)>)]
       let parts: Vec<&str> = l.split('\t').collect();
       match parts.as_slice() {
         ["start", id] => started = id.parse().ok().map(|i| (i, "start".to_string())),
+        ["time", id, ms, st] => {
+          if let (Ok(id), Ok(ms)) = (id.parse::<usize>(), ms.parse::<u64>()) {
+            times.push((id, ms, st.to_string()));
+          }
+        }
         ["stage", id, st] => started = id.parse().ok().map(|i| (i, st.to_string())),
         ["done", id, stage, detail] => {
           if let Ok(id) = id.parse::<usize>() {
@@ -1065,7 +1088,7 @@ fn signature(kind: &str, obs: &Obs, faulted: &str) -> Option<String> {
 pub fn run(cfg: &Cfg) -> Report {
   let mut rep = Report::new(
     "C12",
-    "single structural faults (delete/duplicate/empty/swap of every element, attribute and text node; href and typeRef retargeted to missing/own/ancestor/other) at every position of the shipped example models (/repo/examples/**/*.dmn, EX_* tables of valid.rs rendered as models) and of generated models; each case parse → ModelEvaluator::new → evaluate_invocable for every invocable with three input contexts, in child processes. Quick: seeded ~3 % sample + corpus; thorough: every fault, pairs, byte corruption. Non-trivial: the faulted text differs from the base text; distinct by (base, fault kind, position).",
+    "single structural faults (delete/duplicate/empty/swap of every element, attribute and text node; href and typeRef retargeted to missing/own/ancestor/other) at every position of the shipped example models (/repo/examples/**/*.dmn, EX_* tables of valid.rs rendered as models) and of generated models; each case parse → ModelEvaluator::new → evaluate_invocable for every invocable with three input contexts, in child processes. Quick: seeded ~3 % sample + corpus; thorough: every fault, pairs, byte corruption. Scale families: generated texts with thousands of nesting levels / chained decisions (no process death) and diamond-shaped graphs of at most 64 elements (answer within 10 s for loading and for evaluating). Non-trivial: the faulted text differs from the base text; distinct by (base, fault kind, position).",
   );
   let thorough = cfg.tier == "thorough";
   let mut rng = Rng::new(cfg.seed);
@@ -1298,11 +1321,260 @@ pub fn run(cfg: &Cfg) -> Report {
       }
     }
   }
+  scale(cfg, &mut rep);
   let mut model = Model::start(&cfg.driver);
   shapes(cfg, &mut rng, &mut model, &mut rep);
   rep.model_requests += model.requests;
   rep.exhaustive = thorough;
   rep
+}
+
+// ------------------------------------------------------------------------------------------
+// scale families: deep nesting / long chains (stack depth) and diamonds (time)
+// ------------------------------------------------------------------------------------------
+
+const XML_HEAD: &str = r#"<?xml version="1.0" encoding="UTF-8"?><definitions namespace="ns" name="m" id="_m" xmlns="https://www.omg.org/spec/DMN/20191111/MODEL/">"#;
+
+/// One decision whose logic is `levels` boxed contexts (or boxed function definitions) inside each other.
+fn gen_nested_expression(levels: usize, function: bool) -> String {
+  let (open, close) = if function { ("<functionDefinition>", "</functionDefinition>") } else { ("<context><contextEntry>", "</contextEntry></context>") };
+  let mut s = String::from(XML_HEAD);
+  s.push_str(r#"<decision name="D" id="_d"><variable name="D"/>"#);
+  s.push_str(&open.repeat(levels));
+  s.push_str("<literalExpression><text>1</text></literalExpression>");
+  s.push_str(&close.repeat(levels));
+  s.push_str("</decision></definitions>");
+  s
+}
+
+/// One item definition with `levels` item components inside each other, the type of an input.
+fn gen_nested_components(levels: usize) -> String {
+  let mut s = String::from(XML_HEAD);
+  s.push_str(r#"<itemDefinition name="t">"#);
+  for i in 0..levels {
+    s.push_str(&format!("<itemComponent name=\"c{}\">", i));
+  }
+  s.push_str("<typeRef>number</typeRef>");
+  s.push_str(&"</itemComponent>".repeat(levels));
+  s.push_str(r##"</itemDefinition><inputData name="X" id="_i"><variable typeRef="t" name="X"/></inputData><decision name="D" id="_d"><variable name="D"/><informationRequirement id="_r1"><requiredInput href="#_i"/></informationRequirement><literalExpression><text>1</text></literalExpression></decision></definitions>"##);
+  s
+}
+
+/// `n` decisions, each requiring the next one; the invocable is the first.
+fn gen_decision_chain(n: usize) -> String {
+  let mut s = String::from(XML_HEAD);
+  for l in 0..n {
+    s.push_str(&format!("<decision name=\"d{}\" id=\"_d{}\"><variable name=\"d{}\"/>", l, l, l));
+    if l + 1 < n {
+      s.push_str(&format!("<informationRequirement id=\"_r{}\"><requiredDecision href=\"#_d{}\"/></informationRequirement>", l, l + 1));
+    }
+    s.push_str("<literalExpression><text>1</text></literalExpression></decision>");
+  }
+  s.push_str("</definitions>");
+  s
+}
+
+/// `layers` layers of two decisions; both decisions of a layer require both decisions of the next layer.
+fn gen_diamond_decisions(layers: usize) -> String {
+  let mut s = String::from(XML_HEAD);
+  for l in 0..layers {
+    for k in 0..2 {
+      s.push_str(&format!("<decision name=\"d{}_{}\" id=\"_d{}_{}\"><variable name=\"d{}_{}\"/>", l, k, l, k, l, k));
+      if l + 1 < layers {
+        for j in 0..2 {
+          s.push_str(&format!("<informationRequirement id=\"_r{}_{}_{}\"><requiredDecision href=\"#_d{}_{}\"/></informationRequirement>", l, k, j, l + 1, j));
+        }
+      }
+      s.push_str("<literalExpression><text>1</text></literalExpression></decision>");
+    }
+  }
+  s.push_str("</definitions>");
+  s
+}
+
+/// The same with knowledge models, and one decision `D` requiring the first knowledge model.
+fn gen_diamond_knowledge(layers: usize) -> String {
+  let mut s = String::from(XML_HEAD);
+  for l in 0..layers {
+    for k in 0..2 {
+      s.push_str(&format!(
+        "<businessKnowledgeModel name=\"b{}_{}\" id=\"_b{}_{}\"><variable name=\"b{}_{}\"/><encapsulatedLogic><formalParameter name=\"x\"/><literalExpression><text>x</text></literalExpression></encapsulatedLogic>",
+        l, k, l, k, l, k
+      ));
+      if l + 1 < layers {
+        for j in 0..2 {
+          s.push_str(&format!("<knowledgeRequirement id=\"_k{}_{}_{}\"><requiredKnowledge href=\"#_b{}_{}\"/></knowledgeRequirement>", l, k, j, l + 1, j));
+        }
+      }
+      s.push_str("</businessKnowledgeModel>");
+    }
+  }
+  s.push_str(r##"<decision name="D" id="_d"><variable name="D"/><knowledgeRequirement id="_kd"><requiredKnowledge href="#_b0_0"/></knowledgeRequirement><literalExpression><text>b0_0(1)</text></literalExpression></decision></definitions>"##);
+  s
+}
+
+/// `n` item definitions, each with two components that both refer to the next item definition; the
+/// input `X` of the decision `D` has the first one as its type when `used`.
+fn gen_diamond_items(n: usize, used: bool) -> String {
+  let mut s = String::from(XML_HEAD);
+  for l in 0..n {
+    s.push_str(&format!("<itemDefinition name=\"t{}\">", l));
+    for k in 0..2 {
+      let r = if l + 1 < n { format!("t{}", l + 1) } else { "number".to_string() };
+      s.push_str(&format!("<itemComponent name=\"c{}\"><typeRef>{}</typeRef></itemComponent>", k, r));
+    }
+    s.push_str("</itemDefinition>");
+  }
+  s.push_str(&format!(
+    r##"<inputData name="X" id="_i"><variable typeRef="{}" name="X"/></inputData><decision name="D" id="_d"><variable name="D"/><informationRequirement id="_r1"><requiredInput href="#_i"/></informationRequirement><literalExpression><text>1</text></literalExpression></decision></definitions>"##,
+    if used { "t0" } else { "number" }
+  ));
+  s
+}
+
+struct Big {
+  family: &'static str,
+  /// generator and parameters (the replay: the text is regenerated from them)
+  name: String,
+  /// what the model is, for the signature
+  noun: &'static str,
+  text: String,
+  invocable: &'static str,
+}
+
+/// The wall-clock budget of the diamond family: a model of at most 64 elements loads within this time
+/// and each invocable evaluates within this time ("never ... a hang").
+const DIAMOND_BUDGET_MS: u64 = 10_000;
+/// The limit of the deep-nesting family (only the answer matters there, not the time).
+const DEEP_LIMIT_MS: u64 = 120_000;
+
+fn big_cases(thorough: bool) -> Vec<Big> {
+  let mut v = vec![];
+  let mut deep = |name: String, noun: &'static str, text: String, invocable: &'static str| v.push(Big { family: "deep-nesting", name, noun, text, invocable });
+  for levels in if thorough { vec![100, 600, 800, 2_000, 5_000, 20_000] } else { vec![100, 600, 5_000] } {
+    deep(format!("gen_nested_expression(levels={}, boxed contexts)", levels), "deeply nested boxed contexts", gen_nested_expression(levels, false), "D");
+  }
+  for levels in if thorough { vec![100, 2_000, 5_000, 20_000] } else { vec![100, 5_000] } {
+    deep(format!("gen_nested_expression(levels={}, boxed function definitions)", levels), "deeply nested boxed function definitions", gen_nested_expression(levels, true), "D");
+  }
+  for levels in if thorough { vec![100, 1_000, 10_000, 20_000, 50_000] } else { vec![100, 1_000, 20_000] } {
+    deep(format!("gen_nested_components(levels={})", levels), "deeply nested item components", gen_nested_components(levels), "D");
+  }
+  for n in if thorough { vec![100, 2_000, 6_000, 13_000, 20_000] } else { vec![100, 2_000, 13_000] } {
+    deep(format!("gen_decision_chain(decisions={})", n), "a long chain of required decisions", gen_decision_chain(n), "d0");
+  }
+  let mut dia = |name: String, noun: &'static str, text: String, invocable: &'static str| v.push(Big { family: "diamond", name, noun, text, invocable });
+  for layers in if thorough { vec![2, 6, 12, 16, 20, 24, 28, 32] } else { vec![2, 6, 24, 32] } {
+    dia(format!("gen_diamond_decisions(layers={}): {} decisions", layers, 2 * layers), "diamond requirement graph of decisions", gen_diamond_decisions(layers), "d0_0");
+  }
+  for layers in if thorough { vec![2, 6, 12, 16, 20, 31] } else { vec![2, 6, 31] } {
+    dia(format!("gen_diamond_knowledge(layers={}): {} knowledge models and a decision", layers, 2 * layers), "diamond requirement graph of knowledge models", gen_diamond_knowledge(layers), "D");
+  }
+  for n in if thorough { vec![2, 6, 16, 24, 32, 62] } else { vec![2, 6, 62] } {
+    dia(format!("gen_diamond_items(definitions={}, used=false)", n), "diamond of item definitions", gen_diamond_items(n, false), "D");
+    dia(format!("gen_diamond_items(definitions={}, used=true)", n), "diamond of item definitions that is the type of an input", gen_diamond_items(n, true), "D");
+  }
+  v
+}
+
+/// The stage a child died or timed out in, from the `during …` part of its observation.
+fn stage_of(detail: &str) -> &'static str {
+  let during = detail.split_once(" during ").map(|x| x.1).unwrap_or("?");
+  if during.starts_with("eval") {
+    "evaluate_invocable"
+  } else if during == "build" {
+    "ModelEvaluator::new"
+  } else {
+    "dmntk_model::parse"
+  }
+}
+
+/// Deep nesting and long chains must be answered (a model, an error, a value) without the process dying;
+/// diamonds must be answered within the budget.
+fn scale(cfg: &Cfg, rep: &mut Report) {
+  let cases = big_cases(cfg.tier == "thorough");
+  let n_threads = std::thread::available_parallelism().map(|n| n.get()).unwrap_or(4).min(16);
+  // (load observation, load milliseconds, evaluation observation, evaluation milliseconds)
+  type R = (Option<Obs>, u64, Option<Obs>, u64);
+  let results: Mutex<Vec<(usize, R)>> = Mutex::new(vec![]);
+  let next = std::sync::atomic::AtomicUsize::new(0);
+  std::thread::scope(|s| {
+    for _ in 0..n_threads {
+      s.spawn(|| loop {
+        let k = next.fetch_add(1, std::sync::atomic::Ordering::SeqCst);
+        if k >= cases.len() {
+          break;
+        }
+        let c = &cases[k];
+        let budget = if c.family == "diamond" { DIAMOND_BUDGET_MS } else { DEEP_LIMIT_MS };
+        // child 1: parse and build only
+        let mut out = vec![];
+        let mut times = vec![];
+        run_cases_timed(&c.text, &[(0, vec![])], &["-".to_string()], Some(budget + 1_000), &mut out, &mut times);
+        let load = out.pop().map(|o| o.1);
+        let load_ms = times.iter().filter(|t| t.2 == "end").map(|t| t.1).max().unwrap_or(0);
+        let mut r: R = (load.clone(), load_ms, None, 0);
+        if matches!(&load, Some(o) if o.stage == "ok") && load_ms <= budget {
+          // child 2: parse, build and evaluate the invocable with every input context
+          let mut out = vec![];
+          let mut times = vec![];
+          run_cases_timed(&c.text, &[(0, vec![])], &[c.invocable.to_string()], Some(load_ms + budget + 1_000), &mut out, &mut times);
+          let from = times.iter().filter(|t| t.2.starts_with("eval")).map(|t| t.1).min().unwrap_or(0);
+          let to = times.iter().filter(|t| t.2 == "end").map(|t| t.1).max().unwrap_or(from);
+          r.2 = out.pop().map(|o| o.1);
+          r.3 = to.saturating_sub(from);
+        }
+        results.lock().unwrap().push((k, r));
+      });
+    }
+  });
+  let mut results = results.into_inner().unwrap();
+  results.sort_by_key(|r| r.0);
+  for (k, (load, load_ms, eval, eval_ms)) in results {
+    let c = &cases[k];
+    rep.case(&format!("scale|{}|{}", c.family, c.name), true);
+    let input = format!("generated:{} {} ({} bytes of text, regenerated by harness/src/c12.rs; invocable {})", c.family, c.name, c.text.len(), c.invocable);
+    let diamond = c.family == "diamond";
+    let mut verdict = |rep: &mut Report, what: &str, o: &Option<Obs>, ms: u64| -> bool {
+      // `what`: "load" | "evaluate"; true when the answer is acceptable
+      let o = match o {
+        Some(o) => o.clone(),
+        None => Obs { stage: "abort".into(), detail: "no observation".into() },
+      };
+      let answered = matches!(o.stage.as_str(), "ok" | "parse-error" | "build-error");
+      let observed = if answered { format!("{} {} after {} ms", o.stage, o.detail, ms) } else { format!("{} {}", o.stage, o.detail) };
+      if answered && (!diamond || ms <= DIAMOND_BUDGET_MS) {
+        rep.hit(&format!("scale {} {} → {}", c.family, what, o.stage));
+        return true;
+      }
+      let sig = if answered || o.stage == "timeout" {
+        if diamond {
+          format!("C12 {} time grows exponentially ({})", what, c.noun)
+        } else {
+          format!("C12 no answer within {} s in {} on {}", DEEP_LIMIT_MS / 1000, stage_of(&o.detail), c.noun)
+        }
+      } else if o.stage == "abort" {
+        let how = o.detail.split(' ').next().unwrap_or("");
+        let how = if how == "signal:6" || how == "signal:11" { "stack overflow".to_string() } else { format!("process death ({})", how) };
+        format!("C12 {} in {} on {}", how, stage_of(&o.detail), c.noun)
+      } else {
+        format!("C12 {} in {} on {}", o.stage, if what == "load" { "loading" } else { "evaluate_invocable" }, c.noun)
+      };
+      rep.hit(&format!("scale {} {} → {}", c.family, what, if answered { "over budget" } else { o.stage.as_str() }));
+      let expected = if diamond {
+        format!("a model of at most 64 elements loads within {} s and each of its invocables evaluates within {} s", DIAMOND_BUDGET_MS / 1000, DIAMOND_BUDGET_MS / 1000)
+      } else {
+        "a model, an error or a value; not the death of the process".to_string()
+      };
+      rep.disagree(Kind::ImplVsSpec, c.family, &sig, &input, &observed, &expected);
+      rep.sample(json!({"scale": c.name, "stage": what, "observation": observed}));
+      false
+    };
+    if verdict(rep, "load", &load, load_ms) && matches!(&load, Some(o) if o.stage == "ok") {
+      verdict(rep, "evaluate", &eval, eval_ms);
+    }
+  }
+  rep.extra.insert("scale_cases".into(), json!(cases.len()));
 }
 
 /// `dmntk_model::parse(text)` against `(c12 parse <uri table> <tree>)`.
